@@ -16,6 +16,7 @@ import AnnVerif.Lemmas.NodeA3
 namespace AnnVerif.Node
 
 def prevotesOf (rs : List RoundVotes) (r : Int) : Option VoteSet.VoteSet := (rs.find? (·.round = r)).map (·.prevotes)
+def precommitsOf (rs : List RoundVotes) (r : Int) : Option VoteSet.VoteSet := (rs.find? (·.round = r)).map (·.precommits)
 
 theorem prevotes_eq_of (n : Node) (r : Int) : prevotes n r = prevotesOf n.rounds r := rfl
 
@@ -49,14 +50,17 @@ structure Fr (n n' : Node) : Prop where
   rd : ∀ rv ∈ n'.rounds, rv ∈ n.rounds ∨ Fresh (vsVals n.vals) n.height rv
   vv : vsVals n'.vals = vsVals n.vals
   v0 : n'.vals0 = n.vals0
+  /-- no commit is emitted -/
+  oc : ∀ h b, Emit.commit h b ∈ n'.out → Emit.commit h b ∈ n.out
 
 theorem Fr.rfl' (n : Node) : Fr n n :=
-  ⟨rfl, rfl, ⟨[], by simp, by simp⟩, rfl, fun _ _ h => Or.inl h, fun _ h => Or.inl h, rfl, rfl⟩
+  ⟨rfl, rfl, ⟨[], by simp, by simp⟩, rfl, fun _ _ h => Or.inl h, fun _ h => Or.inl h, rfl, rfl, fun _ _ h => h⟩
 
 theorem Fr.of_eq {n n' : Node} (h : n'.height = n.height) (p : n'.past = n.past) (s : n'.signed = n.signed)
     (q : n'.queue = n.queue) (r : n'.rounds = n.rounds) (v : n'.vals = n.vals) (v0 : n'.vals0 = n.vals0)
-    (m : n'.me = n.me) : Fr n n' :=
-  ⟨h, p, ⟨[], by simp [s], by simp⟩, m, fun _ _ hm => Or.inl (by rw [← q]; exact hm), fun _ hm => Or.inl (by rw [← r]; exact hm), by rw [v], v0⟩
+    (m : n'.me = n.me) (o : n'.out = n.out) : Fr n n' :=
+  ⟨h, p, ⟨[], by simp [s], by simp⟩, m, fun _ _ hm => Or.inl (by rw [← q]; exact hm), fun _ hm => Or.inl (by rw [← r]; exact hm), by rw [v], v0,
+    fun _ _ hm => by rw [← o]; exact hm⟩
 
 theorem Fr.signed_sub {a b : Node} (x : Fr a b) : ∀ v ∈ a.signed, v ∈ b.signed := by
   obtain ⟨e, h, _⟩ := x.sg
@@ -66,7 +70,7 @@ theorem Fr.trans {a b c : Node} (x : Fr a b) (y : Fr b c) : Fr a c := by
   obtain ⟨e1, h1, g1⟩ := x.sg
   obtain ⟨e2, h2, g2⟩ := y.sg
   refine ⟨y.h.trans x.h, y.past.trans x.past, ⟨e1 ++ e2, by rw [h2, h1, List.append_assoc], ?_⟩, y.me.trans x.me, ?_, ?_,
-    y.vv.trans x.vv, y.v0.trans x.v0⟩
+    y.vv.trans x.vv, y.v0.trans x.v0, fun h b hm => x.oc h b (y.oc h b hm)⟩
   · intro m hm
     rcases List.mem_append.mp hm with hm | hm
     · exact g1 m hm
@@ -167,13 +171,19 @@ theorem vsVals_incrementAccum (vs : ValSet.ValSet) (k : Nat) :
 
 /-! ### the frame lemmas, one per transition function that cannot end the height -/
 
-theorem fr_emit (n : Node) (e : Emit) : Fr n (emit n e) := Fr.of_eq rfl rfl rfl rfl rfl rfl rfl rfl
+theorem fr_emit (n : Node) (e : Emit) (he : ∀ h b, e ≠ .commit h b) : Fr n (emit n e) :=
+  ⟨rfl, rfl, ⟨[], by simp [emit], by simp⟩, rfl, fun _ _ hm => Or.inl hm, fun _ hm => Or.inl hm, rfl, rfl, by
+    intro h b hm
+    simp only [emit, List.mem_append, List.mem_singleton] at hm
+    rcases hm with hm | hm
+    · exact hm
+    · exact absurd hm.symm (he h b)⟩
 
 theorem fr_setRound (n : Node) (r : Int) : Fr n (setRound n r) := by
   unfold setRound
   split
-  · exact Fr.of_eq rfl rfl rfl rfl rfl rfl rfl rfl
-  · refine ⟨rfl, rfl, ⟨[], by simp, by simp⟩, rfl, fun _ _ h => Or.inl h, ?_, rfl, rfl⟩
+  · exact fr_emit n (.panic "SetRound") (fun _ _ hc => by cases hc)
+  · refine ⟨rfl, rfl, ⟨[], by simp, by simp⟩, rfl, fun _ _ h => Or.inl h, ?_, rfl, rfl, fun _ _ h => h⟩
     intro rv hm
     rcases List.mem_append.mp hm with hm | hm
     · exact Or.inl hm
@@ -187,7 +197,7 @@ theorem fr_signAddVote (n : Node) (t : Nat) (bid : VoteSet.BlockID) : Fr n (sign
     split
     · rename_i i a hme _ _
       refine ⟨rfl, rfl, ⟨[_], rfl, by intro m hm; simp only [List.mem_singleton] at hm; subst hm; exact ⟨rfl, i, hme, rfl⟩⟩, rfl, ?_,
-        fun _ h => Or.inl h, rfl, rfl⟩
+        fun _ h => Or.inl h, rfl, rfl, fun _ _ h => h⟩
       intro v ok hm
       rcases List.mem_append.mp hm with hm | hm
       · exact Or.inl hm
@@ -195,7 +205,7 @@ theorem fr_signAddVote (n : Node) (t : Nat) (bid : VoteSet.BlockID) : Fr n (sign
         obtain ⟨hv, hok⟩ := hm
         subst hv
         exact Or.inr ⟨by simp, hok⟩
-    · exact Fr.of_eq rfl rfl rfl rfl rfl rfl rfl rfl
+    · exact Fr.of_eq rfl rfl rfl rfl rfl rfl rfl rfl rfl
   · exact Fr.rfl' n
 
 theorem fr_doPrevote (n : Node) : Fr n (doPrevote n) := by
@@ -210,50 +220,51 @@ theorem fr_enterPrevote (n : Node) (h r : Int) : Fr n (enterPrevote n h r) := by
   unfold enterPrevote
   split
   · exact Fr.rfl' n
-  · exact (fr_doPrevote n).trans (Fr.of_eq rfl rfl rfl rfl rfl rfl rfl rfl)
+  · exact (fr_doPrevote n).trans (Fr.of_eq rfl rfl rfl rfl rfl rfl rfl rfl rfl)
 
 theorem fr_enterPrevoteWait (n : Node) (h r : Int) : Fr n (enterPrevoteWait n h r) := by
   unfold enterPrevoteWait
   split
   · exact Fr.rfl' n
   · split
-    · exact fr_emit _ _
-    · exact Fr.of_eq rfl rfl rfl rfl rfl rfl rfl rfl
+    · exact fr_emit _ _ (fun _ _ hc => by cases hc)
+    · exact (fr_emit n _ (fun _ _ hc => by cases hc)).trans (Fr.of_eq rfl rfl rfl rfl rfl rfl rfl rfl rfl)
 
 theorem fr_enterPrecommitWait (n : Node) (h r : Int) : Fr n (enterPrecommitWait n h r) := by
   unfold enterPrecommitWait
   split
   · exact Fr.rfl' n
   · split
-    · exact fr_emit _ _
-    · exact Fr.of_eq rfl rfl rfl rfl rfl rfl rfl rfl
+    · exact fr_emit _ _ (fun _ _ hc => by cases hc)
+    · exact (fr_emit n _ (fun _ _ hc => by cases hc)).trans (Fr.of_eq rfl rfl rfl rfl rfl rfl rfl rfl rfl)
 
 /-- queueing a proposal and its parts adds no vote to the queue -/
 theorem Fr.of_queue {n n' : Node} (h : n'.height = n.height) (p : n'.past = n.past) (s : n'.signed = n.signed)
     (q : ∀ v ok, Msg.vote v ok ∈ n'.queue → Msg.vote v ok ∈ n.queue) (r : n'.rounds = n.rounds)
-    (v : n'.vals = n.vals) (v0 : n'.vals0 = n.vals0) (m : n'.me = n.me) : Fr n n' :=
-  ⟨h, p, ⟨[], by simp [s], by simp⟩, m, fun a b hm => Or.inl (q a b hm), fun _ hm => Or.inl (by rw [← r]; exact hm), by rw [v], v0⟩
+    (v : n'.vals = n.vals) (v0 : n'.vals0 = n.vals0) (m : n'.me = n.me) (o : n'.out = n.out) : Fr n n' :=
+  ⟨h, p, ⟨[], by simp [s], by simp⟩, m, fun a b hm => Or.inl (q a b hm), fun _ hm => Or.inl (by rw [← r]; exact hm), by rw [v], v0,
+    fun _ _ hm => by rw [← o]; exact hm⟩
 
 theorem fr_decideProposal (n : Node) (h r : Int) : Fr n (decideProposal n h r) := by
   unfold decideProposal
   extract_lets own block pol p res m
-  have hm : Fr n m := by unfold m; split <;> exact Fr.of_eq rfl rfl rfl rfl rfl rfl rfl rfl
+  have hm : Fr n m := by unfold m; split <;> exact Fr.of_eq rfl rfl rfl rfl rfl rfl rfl rfl rfl
   split
   · split
-    · refine hm.trans (Fr.of_queue rfl rfl rfl ?_ rfl rfl rfl rfl)
+    · refine hm.trans (Fr.of_queue rfl rfl rfl ?_ rfl rfl rfl rfl rfl)
       intro v ok hq
       rcases List.mem_append.mp hq with hq | hq
       · exact hq
       · simp at hq
-    · exact Fr.of_eq rfl rfl rfl rfl rfl rfl rfl rfl
-  · exact Fr.of_eq rfl rfl rfl rfl rfl rfl rfl rfl
+    · exact Fr.of_eq rfl rfl rfl rfl rfl rfl rfl rfl rfl
+  · exact Fr.of_eq rfl rfl rfl rfl rfl rfl rfl rfl rfl
 
 theorem fr_enterPropose (n : Node) (h r : Int) : Fr n (enterPropose n h r) := by
   unfold enterPropose
   split
   · exact Fr.rfl' n
   · extract_lets n1 n2 n3
-    have f1 : Fr n n1 := fr_emit _ _
+    have f1 : Fr n n1 := fr_emit _ _ (fun _ _ hc => by cases hc)
     have f2 : Fr n1 n2 := by
       unfold n2
       split
@@ -261,7 +272,7 @@ theorem fr_enterPropose (n : Node) (h r : Int) : Fr n (enterPropose n h r) := by
         · exact fr_decideProposal _ _ _
         · exact Fr.rfl' _
       · exact Fr.rfl' _
-    have f3 : Fr n2 n3 := Fr.of_eq rfl rfl rfl rfl rfl rfl rfl rfl
+    have f3 : Fr n2 n3 := Fr.of_eq rfl rfl rfl rfl rfl rfl rfl rfl rfl
     split
     · exact ((f1.trans f2).trans f3).trans (fr_enterPrevote _ _ _)
     · exact (f1.trans f2).trans f3
@@ -272,65 +283,65 @@ theorem fr_enterNewRound (n : Node) (h r : Int) : Fr n (enterNewRound n h r) := 
   · exact Fr.rfl' n
   · extract_lets vals n1 n2 n3
     have f1 : Fr n n1 := by
-      refine ⟨rfl, rfl, ⟨[], by simp [n1], by simp⟩, rfl, fun _ _ hm => Or.inl hm, fun _ hm => Or.inl hm, ?_, rfl⟩
+      refine ⟨rfl, rfl, ⟨[], by simp [n1], by simp⟩, rfl, fun _ _ hm => Or.inl hm, fun _ hm => Or.inl hm, ?_, rfl, fun _ _ hm => hm⟩
       show vsVals vals = vsVals n.vals
       unfold vals
       split
       · exact vsVals_incrementAccum _ _
       · rfl
-    have f2 : Fr n1 n2 := by unfold n2; split <;> exact Fr.of_eq rfl rfl rfl rfl rfl rfl rfl rfl
+    have f2 : Fr n1 n2 := by unfold n2; split <;> exact Fr.of_eq rfl rfl rfl rfl rfl rfl rfl rfl rfl
     have f3 : Fr n2 n3 := fr_setRound _ _
     exact ((f1.trans f2).trans f3).trans (fr_enterPropose _ _ _)
 
-theorem fr_unlock (n : Node) : Fr n (unlock n) := Fr.of_eq rfl rfl rfl rfl rfl rfl rfl rfl
+theorem fr_unlock (n : Node) : Fr n (unlock n) := Fr.of_eq rfl rfl rfl rfl rfl rfl rfl rfl rfl
 
 theorem fr_enterPrecommit (n : Node) (h r : Int) : Fr n (enterPrecommit n h r) := by
   unfold enterPrecommit
   split
   · exact Fr.rfl' n
   · extract_lets fin
-    have key : ∀ a b : Node, Fr a b → Fr a (fin b) := fun a b f => f.trans (Fr.of_eq rfl rfl rfl rfl rfl rfl rfl rfl)
+    have key : ∀ a b : Node, Fr a b → Fr a (fin b) := fun a b f => f.trans (Fr.of_eq rfl rfl rfl rfl rfl rfl rfl rfl rfl)
     split
     · exact key _ _ (fr_signAddVote _ _ _)
     · split
-      · exact key _ _ (fr_emit _ _)
+      · exact key _ _ (fr_emit _ _ (fun _ _ hc => by cases hc))
       · split
         · refine key _ _ (Fr.trans ?_ (fr_signAddVote _ _ _))
           split
           · exact fr_unlock _
           · exact Fr.rfl' _
         · split
-          · exact key _ _ ((Fr.of_eq rfl rfl rfl rfl rfl rfl rfl rfl : Fr n { n with lockedRound := r }).trans (fr_signAddVote _ _ _))
+          · exact key _ _ ((Fr.of_eq rfl rfl rfl rfl rfl rfl rfl rfl rfl : Fr n { n with lockedRound := r }).trans (fr_signAddVote _ _ _))
           · split
             · split
-              · exact key _ _ (fr_emit _ _)
-              · exact key _ _ ((Fr.of_eq rfl rfl rfl rfl rfl rfl rfl rfl : Fr n { n with lockedRound := r, lockedBlock := n.proposalBlock }).trans
+              · exact key _ _ (fr_emit _ _ (fun _ _ hc => by cases hc))
+              · exact key _ _ ((Fr.of_eq rfl rfl rfl rfl rfl rfl rfl rfl rfl : Fr n { n with lockedRound := r, lockedBlock := n.proposalBlock }).trans
                   (fr_signAddVote _ _ _))
             · extract_lets m1
-              have g2 : Fr n m1 := by unfold m1; split <;> exact Fr.of_eq rfl rfl rfl rfl rfl rfl rfl rfl
+              have g2 : Fr n m1 := by unfold m1; split <;> exact Fr.of_eq rfl rfl rfl rfl rfl rfl rfl rfl rfl
               exact key _ _ (g2.trans (fr_signAddVote _ _ _))
 
 theorem fr_setProposal (n : Node) (p : Proposal) (signer : Nat) (bad : Bool) : Fr n (setProposal n p signer bad) := by
   unfold setProposal
   repeat' split
-  all_goals first | exact Fr.rfl' n | exact Fr.of_eq rfl rfl rfl rfl rfl rfl rfl rfl
+  all_goals first | exact Fr.rfl' n | exact Fr.of_eq rfl rfl rfl rfl rfl rfl rfl rfl rfl
 
 theorem past_hvsAddVote (n : Node) (v : VoteSet.Vote) (sigok : Bool) (peer : String) :
     (hvsAddVote n v sigok peer).1.past = n.past ∧ (hvsAddVote n v sigok peer).1.queue = n.queue ∧
     (hvsAddVote n v sigok peer).1.vals = n.vals ∧ (hvsAddVote n v sigok peer).1.vals0 = n.vals0 ∧
-    (hvsAddVote n v sigok peer).1.me = n.me := by
+    (hvsAddVote n v sigok peer).1.me = n.me ∧ (hvsAddVote n v sigok peer).1.out = n.out := by
   unfold hvsAddVote
   split
-  · exact ⟨rfl, rfl, rfl, rfl, rfl⟩
+  · exact ⟨rfl, rfl, rfl, rfl, rfl, rfl⟩
   · split
     rename_i n' known heq
-    have s : n'.past = n.past ∧ n'.queue = n.queue ∧ n'.vals = n.vals ∧ n'.vals0 = n.vals0 ∧ n'.me = n.me := by
+    have s : n'.past = n.past ∧ n'.queue = n.queue ∧ n'.vals = n.vals ∧ n'.vals0 = n.vals0 ∧ n'.me = n.me ∧ n'.out = n.out := by
       split at heq
-      · cases heq; exact ⟨rfl, rfl, rfl, rfl, rfl⟩
+      · cases heq; exact ⟨rfl, rfl, rfl, rfl, rfl, rfl⟩
       · dsimp only at heq
         split at heq
-        · cases heq; exact ⟨rfl, rfl, rfl, rfl, rfl⟩
-        · cases heq; exact ⟨rfl, rfl, rfl, rfl, rfl⟩
+        · cases heq; exact ⟨rfl, rfl, rfl, rfl, rfl, rfl⟩
+        · cases heq; exact ⟨rfl, rfl, rfl, rfl, rfl, rfl⟩
     split
     · exact s
     · split
@@ -340,13 +351,13 @@ theorem past_hvsAddVote (n : Node) (v : VoteSet.Vote) (sigok : Bool) (peer : Str
 theorem past_setPeerMaj23 (n : Node) (height round : Int) (type : Nat) (peer : String) (bid : VoteSet.BlockID) :
     (setPeerMaj23 n height round type peer bid).past = n.past ∧ (setPeerMaj23 n height round type peer bid).queue = n.queue ∧
     (setPeerMaj23 n height round type peer bid).vals = n.vals ∧ (setPeerMaj23 n height round type peer bid).vals0 = n.vals0 ∧
-    (setPeerMaj23 n height round type peer bid).me = n.me := by
+    (setPeerMaj23 n height round type peer bid).me = n.me ∧ (setPeerMaj23 n height round type peer bid).out = n.out := by
   unfold setPeerMaj23
   split
-  · exact ⟨rfl, rfl, rfl, rfl, rfl⟩
+  · exact ⟨rfl, rfl, rfl, rfl, rfl, rfl⟩
   · split
-    · exact ⟨rfl, rfl, rfl, rfl, rfl⟩
-    · split <;> exact ⟨rfl, rfl, rfl, rfl, rfl⟩
+    · exact ⟨rfl, rfl, rfl, rfl, rfl, rfl⟩
+    · split <;> exact ⟨rfl, rfl, rfl, rfl, rfl, rfl⟩
 
 /-! ### what the vote sets hold: every stored vote was offered to this node with a verifying signature -/
 
@@ -354,24 +365,31 @@ theorem past_setPeerMaj23 (n : Node) (height round : Int) (type : Nat) (peer : S
     (C15) relative to the history `hist` of votes offered to the node -/
 def SetsOK (V : List VoteSet.Validator) (hist : VoteSet.Hist) (h : Int) (rs : List RoundVotes) : Prop :=
   ∀ rv ∈ rs, VoteSet.Inv VoteSet.repaired hist rv.prevotes ∧ VoteSet.Inv VoteSet.repaired hist rv.precommits ∧
-    VoteSet.SameParams (VoteSet.new h rv.round 1 V) rv.prevotes ∧ VoteSet.SameParams (VoteSet.new h rv.round 2 V) rv.precommits
+    VoteSet.SameParams (VoteSet.new h rv.round 1 V) rv.prevotes ∧ VoteSet.SameParams (VoteSet.new h rv.round 2 V) rv.precommits ∧
+    (∀ b, rv.prevotes.maj23 = some b → ∃ v, (v, true) ∈ hist ∧ v.bid = b) ∧
+    (∀ b, rv.precommits.maj23 = some b → ∃ v, (v, true) ∈ hist ∧ v.bid = b)
 
 theorem SetsOK.mono {V : List VoteSet.Validator} {hist : VoteSet.Hist} {h : Int} {rs : List RoundVotes}
     (x : VoteSet.Hist) (s : SetsOK V hist h rs) : SetsOK V (hist ++ x) h rs := by
   intro rv hm
-  obtain ⟨a, b, c, d⟩ := s rv hm
-  exact ⟨a.mono x, b.mono x, c, d⟩
+  obtain ⟨a, b, c, d, e1, e2⟩ := s rv hm
+  exact ⟨a.mono x, b.mono x, c, d,
+    fun bb hb => (e1 bb hb).imp fun v hv => ⟨List.mem_append_left _ hv.1, hv.2⟩,
+    fun bb hb => (e2 bb hb).imp fun v hv => ⟨List.mem_append_left _ hv.1, hv.2⟩⟩
 
 theorem setsOK_fresh {V : List VoteSet.Validator} (hist : VoteSet.Hist) (h : Int) (rv : RoundVotes)
     (pos : ∀ val ∈ V, 0 ≤ val.power) (f : Fresh V h rv) :
     VoteSet.Inv VoteSet.repaired hist rv.prevotes ∧ VoteSet.Inv VoteSet.repaired hist rv.precommits ∧
-    VoteSet.SameParams (VoteSet.new h rv.round 1 V) rv.prevotes ∧ VoteSet.SameParams (VoteSet.new h rv.round 2 V) rv.precommits := by
+    VoteSet.SameParams (VoteSet.new h rv.round 1 V) rv.prevotes ∧ VoteSet.SameParams (VoteSet.new h rv.round 2 V) rv.precommits ∧
+    (∀ b, rv.prevotes.maj23 = some b → ∃ v, (v, true) ∈ hist ∧ v.bid = b) ∧
+    (∀ b, rv.precommits.maj23 = some b → ∃ v, (v, true) ∈ hist ∧ v.bid = b) := by
   obtain ⟨r, hr⟩ := f
   subst hr
   have a := (VoteSet.inv_new VoteSet.repaired h r 1 V pos).mono hist
   have b := (VoteSet.inv_new VoteSet.repaired h r 2 V pos).mono hist
   rw [List.nil_append] at a b
-  exact ⟨a, b, VoteSet.SameParams.refl _, VoteSet.SameParams.refl _⟩
+  exact ⟨a, b, VoteSet.SameParams.refl _, VoteSet.SameParams.refl _, by intro b hb; simp [VoteSet.new] at hb,
+    by intro b hb; simp [VoteSet.new] at hb⟩
 
 structure VSI (V : List VoteSet.Validator) (n : Node) (hist : VoteSet.Hist) : Prop where
   pos : ∀ val ∈ V, 0 ≤ val.power
@@ -397,7 +415,9 @@ theorem VSI.fr {V : List VoteSet.Validator} {n n' : Node} {hist : VoteSet.Hist} 
 theorem setsOK_map {V : List VoteSet.Validator} {hist : VoteSet.Hist} {h : Int} {rs : List RoundVotes}
     (s : SetsOK V hist h rs) (R : Int) (rv' : RoundVotes)
     (ok : VoteSet.Inv VoteSet.repaired hist rv'.prevotes ∧ VoteSet.Inv VoteSet.repaired hist rv'.precommits ∧
-      VoteSet.SameParams (VoteSet.new h rv'.round 1 V) rv'.prevotes ∧ VoteSet.SameParams (VoteSet.new h rv'.round 2 V) rv'.precommits) :
+      VoteSet.SameParams (VoteSet.new h rv'.round 1 V) rv'.prevotes ∧ VoteSet.SameParams (VoteSet.new h rv'.round 2 V) rv'.precommits ∧
+      (∀ b, rv'.prevotes.maj23 = some b → ∃ v, (v, true) ∈ hist ∧ v.bid = b) ∧
+      (∀ b, rv'.precommits.maj23 = some b → ∃ v, (v, true) ∈ hist ∧ v.bid = b)) :
     SetsOK V hist h (rs.map (fun x => if x.round = R then rv' else x)) := by
   intro x hx
   obtain ⟨y, hy, rfl⟩ := List.mem_map.mp hx
@@ -437,7 +457,22 @@ theorem vsi_hvsAddVote {V : List VoteSet.Validator} {hist : VoteSet.Hist} (n : N
       · rename_i rv hrv
         have hm := getRound_mem hrv
         have hround : rv.round = v.round := getRound_round hrv
-        obtain ⟨i1, i2, p1, p2⟩ := s'.cur rv hm
+        obtain ⟨i1, i2, p1, p2, o1, o2⟩ := s'.cur rv hm
+        have lift : ∀ {P : VoteSet.BlockID → Prop}, (∀ b, P b → ∃ w, (w, true) ∈ hist ∧ w.bid = b) →
+            ∀ b, P b → ∃ w, (w, true) ∈ hist ++ [(v, sigok)] ∧ w.bid = b :=
+          fun hP b hb => (hP b hb).imp fun w hw => ⟨List.mem_append_left _ hw.1, hw.2⟩
+        have new1 : ∀ b, (VoteSet.addVote VoteSet.repaired rv.prevotes v sigok).1.maj23 = some b →
+            ∃ w, (w, true) ∈ hist ++ [(v, sigok)] ∧ w.bid = b := by
+          intro b hb
+          rcases VoteSet.addVote_maj23 VoteSet.repaired rv.prevotes v sigok with h | ⟨_, h, hok⟩
+          · rw [h] at hb; exact lift o1 b hb
+          · rw [h] at hb; cases hb; exact ⟨v, by rw [hok]; simp, rfl⟩
+        have new2 : ∀ b, (VoteSet.addVote VoteSet.repaired rv.precommits v sigok).1.maj23 = some b →
+            ∃ w, (w, true) ∈ hist ++ [(v, sigok)] ∧ w.bid = b := by
+          intro b hb
+          rcases VoteSet.addVote_maj23 VoteSet.repaired rv.precommits v sigok with h | ⟨_, h, hok⟩
+          · rw [h] at hb; exact lift o2 b hb
+          · rw [h] at hb; cases hb; exact ⟨v, by rw [hok]; simp, rfl⟩
         have pos1 : ∀ val ∈ rv.prevotes.vals, 0 ≤ val.power := by rw [← p1.2.2.2]; exact s'.pos
         have pos2 : ∀ val ∈ rv.precommits.vals, 0 ≤ val.power := by rw [← p2.2.2.2]; exact s'.pos
         have a1 := VoteSet.addVote_inv (cfg := VoteSet.repaired) v sigok pos1 i1
@@ -445,13 +480,13 @@ theorem vsi_hvsAddVote {V : List VoteSet.Validator} {hist : VoteSet.Hist} (n : N
         refine ⟨s'.pos, s'.vals, s'.vals0, ?_, fun e he => (s'.old e he).mono _⟩
         by_cases ht : v.type = 1
         · simp only [ht, if_true]
-          generalize VoteSet.addVote VoteSet.repaired rv.prevotes v sigok = res at a1 ⊢
+          generalize VoteSet.addVote VoteSet.repaired rv.prevotes v sigok = res at a1 new1 ⊢
           obtain ⟨vs', o⟩ := res
-          exact setsOK_map (s'.cur.mono _) v.round _ ⟨a1.1, i2.mono _, p1.trans a1.2, p2⟩
+          exact setsOK_map (s'.cur.mono _) v.round _ ⟨a1.1, i2.mono _, p1.trans a1.2, p2, new1, lift o2⟩
         · simp only [ht, if_false]
-          generalize VoteSet.addVote VoteSet.repaired rv.precommits v sigok = res at a2 ⊢
+          generalize VoteSet.addVote VoteSet.repaired rv.precommits v sigok = res at a2 new2 ⊢
           obtain ⟨vs', o⟩ := res
-          exact setsOK_map (s'.cur.mono _) v.round _ ⟨i1.mono _, a2.1, p1, p2.trans a2.2⟩
+          exact setsOK_map (s'.cur.mono _) v.round _ ⟨i1.mono _, a2.1, p1, p2.trans a2.2, lift o1, new2⟩
 
 theorem vsi_setPeerMaj23 {V : List VoteSet.Validator} {hist : VoteSet.Hist} (n : Node) (height round : Int) (type : Nat)
     (peer : String) (bid : VoteSet.BlockID) (s : VSI V n hist) : VSI V (setPeerMaj23 n height round type peer bid) hist := by
@@ -464,7 +499,7 @@ theorem vsi_setPeerMaj23 {V : List VoteSet.Validator} {hist : VoteSet.Hist} (n :
       · exact s
       · rename_i rv hrv
         have hm := getRound_mem hrv
-        obtain ⟨i1, i2, p1, p2⟩ := s.cur rv hm
+        obtain ⟨i1, i2, p1, p2, o1, o2⟩ := s.cur rv hm
         have pos1 : ∀ val ∈ rv.prevotes.vals, 0 ≤ val.power := by rw [← p1.2.2.2]; exact s.pos
         have pos2 : ∀ val ∈ rv.precommits.vals, 0 ≤ val.power := by rw [← p2.2.2.2]; exact s.pos
         have a1 := VoteSet.setPeerMaj23_inv (cfg := VoteSet.repaired) peer bid pos1 i1
@@ -472,9 +507,11 @@ theorem vsi_setPeerMaj23 {V : List VoteSet.Validator} {hist : VoteSet.Hist} (n :
         refine ⟨s.pos, s.vals, s.vals0, ?_, s.old⟩
         by_cases ht : type = 1
         · simp only [ht, if_true]
-          exact setsOK_map s.cur round _ ⟨a1.1, i2, p1.trans a1.2, p2⟩
+          exact setsOK_map s.cur round _ ⟨a1.1, i2, p1.trans a1.2, p2,
+            by intro b hb; rw [VoteSet.setPeerMaj23_maj23] at hb; exact o1 b hb, o2⟩
         · simp only [ht, if_false]
-          exact setsOK_map s.cur round _ ⟨i1, a2.1, p1, p2.trans a2.2⟩
+          exact setsOK_map s.cur round _ ⟨i1, a2.1, p1, p2.trans a2.2, o1,
+            by intro b hb; rw [VoteSet.setPeerMaj23_maj23] at hb; exact o2 b hb⟩
 
 /-! ### the run invariants together, through every handler -/
 
@@ -490,14 +527,16 @@ structure Full (V : List VoteSet.Validator) (me0 : Option Nat) (n : Node) (hist 
   /-- signed votes carry the node's own validator index -/
   sm : ∀ w ∈ n.signed, ∃ i : Nat, n.me = some i ∧ w.idx = (i : Int)
   hme : n.me = me0
+  /-- a commit was emitted with the +2/3 precommits of one round in the vote sets frozen at that moment -/
+  cm : ∀ h b, Emit.commit h b ∈ n.out → ∃ e ∈ n.past, e.1 = h ∧ ∃ cr bid, maj23 (precommitsOf e.2 cr) = some bid ∧ bid.hash = b
 
 variable {V : List VoteSet.Validator} {hist : VoteSet.Hist} {me0 : Option Nat}
 
 theorem Full.mono {n : Node} (x : VoteSet.Hist) (f : Full V me0 n hist) : Full V me0 n (hist ++ x) :=
-  ⟨f.qj, f.a3, f.past, f.vsi.mono x, f.qs, f.sm, f.hme⟩
+  ⟨f.qj, f.a3, f.past, f.vsi.mono x, f.qs, f.sm, f.hme, f.cm⟩
 
 theorem Full.fr {n n' : Node} (f : Full V me0 n hist) (r : Fr n n') (e : Ext n n') (a : A3Inv n') : Full V me0 n' hist := by
-  refine ⟨f.qj.ext e, a, f.past.fr r, f.vsi.fr r, ?_, ?_, r.me.trans f.hme⟩
+  refine ⟨f.qj.ext e, a, f.past.fr r, f.vsi.fr r, ?_, ?_, r.me.trans f.hme, ?_⟩
   · intro v ok hm
     rcases r.qv v ok hm with hm | hm
     · exact ⟨r.signed_sub _ (f.qs v ok hm).1, (f.qs v ok hm).2⟩
@@ -509,15 +548,18 @@ theorem Full.fr {n n' : Node} (f : Full V me0 n hist) (r : Fr n n') (e : Ext n n
     rcases List.mem_append.mp hw with hw | hw
     · exact f.sm w hw
     · exact (hx w hw).2
+  · intro h b hm
+    rw [r.past]
+    exact f.cm h b (r.oc h b hm)
 
 theorem Full.same {n n' : Node} (f : Full V me0 n hist) (hh : n'.height = n.height) (hr : n'.rounds = n.rounds)
     (hs : n'.signed = n.signed) (hp : n'.past = n.past)
     (hq : ∀ v ok, Msg.vote v ok ∈ n'.queue → Msg.vote v ok ∈ n.queue) (hv : n'.vals = n.vals) (hv0 : n'.vals0 = n.vals0)
-    (hm : n'.me = n.me) (k : Kept n n') (l : Le n n') : Full V me0 n' hist :=
-  f.fr (Fr.of_queue hh hp hs hq hr hv hv0 hm) (Ext.frame hh hr hs) (f.a3.keep (Ext.frame hh hr hs) k l hs)
+    (hm : n'.me = n.me) (ho : n'.out = n.out) (k : Kept n n') (l : Le n n') : Full V me0 n' hist :=
+  f.fr (Fr.of_queue hh hp hs hq hr hv hv0 hm ho) (Ext.frame hh hr hs) (f.a3.keep (Ext.frame hh hr hs) k l hs)
 
-theorem full_emit (n : Node) (e : Emit) (f : Full V me0 n hist) : Full V me0 (emit n e) hist :=
-  f.fr (fr_emit _ _) (ext_emit _ _) (a3_emit _ _ f.a3)
+theorem full_emit (n : Node) (e : Emit) (he : ∀ h b, e ≠ .commit h b) (f : Full V me0 n hist) : Full V me0 (emit n e) hist :=
+  f.fr (fr_emit _ _ he) (ext_emit _ _) (a3_emit _ _ f.a3)
 
 theorem full_enterNewRound (n : Node) (h r : Int) (f : Full V me0 n hist) : Full V me0 (enterNewRound n h r) hist :=
   f.fr (fr_enterNewRound _ _ _) (ext_enterNewRound _ _ _) (a3_enterNewRound _ _ _ f.a3)
@@ -581,18 +623,18 @@ theorem full_finalizeCommit (n : Node) (h : Int) (f : Full V me0 n hist) : Full 
   · rename_i hg
     split
     · split
-      · intro _ _; exact full_emit _ _ f
+      · intro _ _; exact full_emit _ _ (fun _ _ hc => by cases hc) f
       · split
-        · intro _ _; exact full_emit _ _ f
+        · intro _ _; exact full_emit _ _ (fun _ _ hc => by cases hc) f
         · split
-          · intro _ _; exact full_emit _ _ f
+          · intro _ _; exact full_emit _ _ (fun _ _ hc => by cases hc) f
           · split
-            · intro _ _; exact full_emit _ _ f
+            · intro _ _; exact full_emit _ _ (fun _ _ hc => by cases hc) f
             · intro hq ha
               have hh : n.height = h := Classical.not_not.mp (fun x => hg (Or.inl x))
               subst hh
-              have f1 := full_emit n (.commit n.height (match n.proposalBlock with | some b => b | none => [])) f
-              refine ⟨hq, ha, PastInv.commit (full_emit n _ f) rfl rfl rfl, ?_, ?_, ?_, ?_⟩
+              rename_i blockID b hmaj hpb hpp hbn hval hpc
+              refine ⟨hq, ha, PastInv.commit f rfl rfl rfl, ?_, ?_, ?_, ?_, ?_⟩
               · refine ⟨f.vsi.pos, ?_, ?_, ?_, ?_⟩
                 · show vsVals (ValSet.incrementAccum ValSet.repaired n.vals0 1) = V
                   rw [vsVals_incrementAccum]; exact f.vsi.vals0
@@ -615,12 +657,22 @@ theorem full_finalizeCommit (n : Node) (h : Int) (f : Full V me0 n hist) : Full 
                 exact f.qs v ok hm
               · exact f.sm
               · exact f.hme
-    · intro _ _; exact full_emit _ _ f
+              · intro h' b' hm
+                simp only [emit, List.mem_append, List.mem_singleton] at hm
+                rcases hm with (hm | hm) | hm
+                · obtain ⟨e, he, h1⟩ := f.cm h' b' hm
+                  exact ⟨e, List.mem_append_left _ he, h1⟩
+                · cases hm
+                  refine ⟨(n.height, n.rounds), List.mem_append_right _ (by simp [emit]), rfl, n.commitRound, blockID, hmaj, ?_⟩
+                  have : b = nameOf blockID := Classical.not_not.mp hbn
+                  rw [this]; rfl
+                · cases hm
+    · intro _ _; exact full_emit _ _ (fun _ _ hc => by cases hc) f
 
 theorem full_tryFinalizeCommit (n : Node) (h : Int) (f : Full V me0 n hist) : Full V me0 (tryFinalizeCommit n h) hist := by
   unfold tryFinalizeCommit
   split
-  · exact full_emit _ _ f
+  · exact full_emit _ _ (fun _ _ hc => by cases hc) f
   · split
     · exact f
     · split
@@ -635,12 +687,12 @@ theorem full_enterCommit (n : Node) (h cr : Int) (f : Full V me0 n hist) : Full 
   · exact f
   · rename_i hg
     split
-    · exact full_emit _ _ f
+    · exact full_emit _ _ (fun _ _ hc => by cases hc) f
     · extract_lets n1 n2 n3
       have i1 : Full V me0 n1 hist := by
         unfold n1
         split
-        · exact f.same rfl rfl rfl rfl (fun _ _ h => h) rfl rfl rfl ⟨rfl, rfl, rfl⟩ (Le.of_same ⟨rfl, rfl, rfl⟩)
+        · exact f.same rfl rfl rfl rfl (fun _ _ h => h) rfl rfl rfl rfl ⟨rfl, rfl, rfl⟩ (Le.of_same ⟨rfl, rfl, rfl⟩)
         · exact f
       have s1 : SameHRS n n1 := by
         unfold n1
@@ -648,13 +700,13 @@ theorem full_enterCommit (n : Node) (h cr : Int) (f : Full V me0 n hist) : Full 
       have i2 : Full V me0 n2 hist := by
         unfold n2
         split
-        · exact i1.same rfl rfl rfl rfl (fun _ _ h => h) rfl rfl rfl ⟨rfl, rfl, rfl⟩ (Le.of_same ⟨rfl, rfl, rfl⟩)
+        · exact i1.same rfl rfl rfl rfl (fun _ _ h => h) rfl rfl rfl rfl ⟨rfl, rfl, rfl⟩ (Le.of_same ⟨rfl, rfl, rfl⟩)
         · exact i1
       have s2 : SameHRS n1 n2 := by
         unfold n2
         split <;> exact ⟨rfl, rfl, rfl⟩
       have i3 : Full V me0 n3 hist := by
-        refine i2.same rfl rfl rfl rfl (fun _ _ h => h) rfl rfl rfl ⟨rfl, rfl, rfl⟩ ?_
+        refine i2.same rfl rfl rfl rfl (fun _ _ h => h) rfl rfl rfl rfl ⟨rfl, rfl, rfl⟩ ?_
         apply Le.enter
         · rfl
         · exact Int.le_refl _
@@ -678,7 +730,7 @@ theorem full_addParts (n : Node) (height : Int) (block : Name) (own : Bool) (f :
         · exact f
         · extract_lets m
           have im : Full V me0 m hist :=
-            f.same rfl rfl rfl rfl (fun _ _ h => h) rfl rfl rfl ⟨rfl, rfl, rfl⟩ (Le.of_same ⟨rfl, rfl, rfl⟩)
+            f.same rfl rfl rfl rfl (fun _ _ h => h) rfl rfl rfl rfl ⟨rfl, rfl, rfl⟩ (Le.of_same ⟨rfl, rfl, rfl⟩)
           split
           · exact full_enterPrevote m height m.round (fun _ => Int.le_refl _) im
           · split
@@ -692,7 +744,7 @@ theorem full_hvsAddVote (n : Node) (v : VoteSet.Vote) (sigok : Bool) (peer : Str
   have hh := (hrs_hvsAddVote n v sigok peer).h
   refine ⟨f.qj.ext (ext_hvsAddVote _ _ _ _),
     f.a3.keep (ext_hvsAddVote _ _ _ _) (kept_hvsAddVote _ _ _ _) (Le.of_same (hrs_hvsAddVote _ _ _ _)) hs,
-    ?_, vsi_hvsAddVote n v sigok peer f.vsi, ?_, ?_, ?_⟩
+    ?_, vsi_hvsAddVote n v sigok peer f.vsi, ?_, ?_, ?_, ?_⟩
   · refine ⟨?_, ?_⟩
     · intro e he
       rw [hp.1] at he
@@ -706,9 +758,12 @@ theorem full_hvsAddVote (n : Node) (v : VoteSet.Vote) (sigok : Bool) (peer : Str
     rw [hs]
     exact f.qs w ok hm
   · intro w hw
-    rw [hs] at hw; rw [hp.2.2.2.2]
+    rw [hs] at hw; rw [hp.2.2.2.2.1]
     exact f.sm w hw
-  · rw [hp.2.2.2.2]; exact f.hme
+  · rw [hp.2.2.2.2.1]; exact f.hme
+  · intro h b hm
+    rw [hp.2.2.2.2.2] at hm; rw [hp.1]
+    exact f.cm h b hm
 
 theorem full_addVote (n : Node) (v : VoteSet.Vote) (sigok : Bool) (peer : String) (f : Full V me0 n hist) :
     Full V me0 (addVote n v sigok peer) (hist ++ [(v, sigok)]) := by
@@ -719,13 +774,13 @@ theorem full_addVote (n : Node) (v : VoteSet.Vote) (sigok : Bool) (peer : String
     · split
       · split
         · exact f.mono _
-        · exact full_emit _ _ (f.mono _)
+        · exact full_emit _ _ (fun _ _ hc => by cases hc) (f.mono _)
       · split
         dsimp only
         split
         · apply full_enterNewRound
-          exact (f.mono _).same rfl rfl rfl rfl (fun _ _ h => h) rfl rfl rfl ⟨rfl, rfl, rfl⟩ (Le.of_same ⟨rfl, rfl, rfl⟩)
-        · exact (f.mono _).same rfl rfl rfl rfl (fun _ _ h => h) rfl rfl rfl ⟨rfl, rfl, rfl⟩ (Le.of_same ⟨rfl, rfl, rfl⟩)
+          exact (f.mono _).same rfl rfl rfl rfl (fun _ _ h => h) rfl rfl rfl rfl ⟨rfl, rfl, rfl⟩ (Le.of_same ⟨rfl, rfl, rfl⟩)
+        · exact (f.mono _).same rfl rfl rfl rfl (fun _ _ h => h) rfl rfl rfl rfl ⟨rfl, rfl, rfl⟩ (Le.of_same ⟨rfl, rfl, rfl⟩)
   · split
     · have i0 := full_hvsAddVote n v sigok peer f
       generalize hvsAddVote n v sigok peer = res at i0 ⊢
@@ -789,7 +844,7 @@ theorem full_handleTimeout (n : Node) (h r : Int) (s : Step) (hw : h = n.height 
     · exact full_enterPrevote _ _ _ (fun e => hw e.symm) f
     · exact full_enterPrecommit _ _ _ (fun e => hw e.symm) f
     · exact full_enterNewRound _ _ _ f
-    · exact full_emit _ _ f
+    · exact full_emit _ _ (fun _ _ hc => by cases hc) f
 
 /-- the votes an input offers to the vote sets, with their signature-oracle bit -/
 def offeredMsg : Msg → VoteSet.Hist
@@ -822,7 +877,7 @@ theorem full_stepIn (n : Node) (inp : In) (f : Full V me0 n hist) (hw : WellTime
     | nil => exact f.mono _
     | cons m rest =>
       have i' : Full V me0 { n with queue := rest } hist :=
-        f.same rfl rfl rfl rfl (fun v ok h => by rw [hq]; exact List.mem_cons_of_mem _ h) rfl rfl rfl ⟨rfl, rfl, rfl⟩
+        f.same rfl rfl rfl rfl (fun v ok h => by rw [hq]; exact List.mem_cons_of_mem _ h) rfl rfl rfl rfl ⟨rfl, rfl, rfl⟩
           (Le.of_same ⟨rfl, rfl, rfl⟩)
       exact full_handleMsg _ _ _ i'
   | timeout h r s => exact (full_handleTimeout _ _ _ _ hw f).mono _
@@ -832,7 +887,7 @@ theorem full_stepIn (n : Node) (inp : In) (f : Full V me0 n hist) (hw : WellTime
     have hh := (hrs_setPeerMaj23 n h r t peer bid).h
     refine Full.mono _ ⟨f.qj.ext (ext_setPeerMaj23 _ _ _ _ _ _),
       f.a3.keep (ext_setPeerMaj23 _ _ _ _ _ _) (kept_setPeerMaj23 _ _ _ _ _ _)
-        (Le.of_same (hrs_setPeerMaj23 _ _ _ _ _ _)) hs, ?_, vsi_setPeerMaj23 n h r t peer bid f.vsi, ?_, ?_, ?_⟩
+        (Le.of_same (hrs_setPeerMaj23 _ _ _ _ _ _)) hs, ?_, vsi_setPeerMaj23 n h r t peer bid f.vsi, ?_, ?_, ?_, ?_⟩
     · refine ⟨?_, ?_⟩
       · intro e he
         show e.1 < (setPeerMaj23 n h r t peer bid).height ∧ PastOK (setPeerMaj23 n h r t peer bid).signed e
@@ -855,9 +910,14 @@ theorem full_stepIn (n : Node) (inp : In) (f : Full V me0 n hist) (hw : WellTime
     · intro w hw
       have hw' : w ∈ (setPeerMaj23 n h r t peer bid).signed := hw
       show ∃ i : Nat, (setPeerMaj23 n h r t peer bid).me = some i ∧ w.idx = (i : Int)
-      rw [hs] at hw'; rw [hp.2.2.2.2]
+      rw [hs] at hw'; rw [hp.2.2.2.2.1]
       exact f.sm w hw'
     · show (setPeerMaj23 n h r t peer bid).me = me0
-      rw [hp.2.2.2.2]; exact f.hme
+      rw [hp.2.2.2.2.1]; exact f.hme
+    · intro hh' b hm
+      have hm' : Emit.commit hh' b ∈ (setPeerMaj23 n h r t peer bid).out := hm
+      show ∃ e ∈ (setPeerMaj23 n h r t peer bid).past, _
+      rw [hp.2.2.2.2.2] at hm'; rw [hp.1]
+      exact f.cm hh' b hm'
 
 end AnnVerif.Node
